@@ -38,9 +38,6 @@
 /* real (unwrapped) primitives exported by the library when it is linked */
 extern int real_pthread_create(pthread_t *, const pthread_attr_t *,
                                void *(*)(void *), void *) __attribute__((weak));
-extern int real_usleep(useconds_t) __attribute__((weak));
-extern int real_sched_yield(void) __attribute__((weak));
-extern int real_nanosleep(const struct timespec *, struct timespec *) __attribute__((weak));
 
 /* ------------------------------------------------------------------ ids */
 
@@ -212,13 +209,10 @@ int myth_verif_my_rank(void) { return vt_get()->rank; }
 uint64_t myth_verif_stamp(void) { return atomic_fetch_add(&g_stamp, 1); }
 
 void myth_verif_real_usleep(unsigned us) {
-  if (real_nanosleep) {
-    struct timespec ts = { us / 1000000, (long)(us % 1000000) * 1000 };
-    real_nanosleep(&ts, 0);
-  } else {
-    struct timespec ts = { us / 1000000, (long)(us % 1000000) * 1000 };
-    syscall(SYS_nanosleep, &ts, 0);
-  }
+  /* raw system call: in the ld/dl builds nanosleep/usleep are themselves redirected to the library
+     (and the library's real_nanosleep goes through the wrapped symbol when linked statically) */
+  struct timespec ts = { us / 1000000, (long)(us % 1000000) * 1000 };
+  syscall(SYS_nanosleep, &ts, 0);
 }
 void myth_verif_real_yield(void) {
   syscall(SYS_sched_yield);
